@@ -199,7 +199,13 @@ func (r *Reader) ReadPacket() (Packet, error) {
 		return nil, err
 	}
 	fh.RemainLength = length
-	packet, err := NewPacket(fh, r.version, r.bufr)
+	// Read the declared number of bytes as they arrive, so that the memory allocated for a packet
+	// is bounded by the bytes actually received and not by the length the peer declares.
+	var body bytes.Buffer
+	if _, err = io.CopyN(&body, r.bufr, int64(length)); err != nil {
+		return nil, codes.ErrMalformed
+	}
+	packet, err := NewPacket(fh, r.version, &body)
 	if err != nil {
 		return nil, err
 	}
